@@ -36,10 +36,11 @@ type config struct {
 	Entry     string
 	Query     bool // the points differ in nothing but their query string
 	PathCase  bool // the points differ in nothing but the letter case of their path
+	WithST    bool // a signing time is supplied (no CRL rule depends on it - which is the point)
 }
 
 func scenario(c config, behs []string) *sims.Scenario {
-	sc := &sims.Scenario{Len: c.Len, CAKind: c.CAKind, Entry: c.Entry, CRLRoute: c.Route, Cache: c.Cache}
+	sc := &sims.Scenario{Len: c.Len, CAKind: c.CAKind, Entry: c.Entry, CRLRoute: c.Route, Cache: c.Cache, WithST: c.WithST}
 	sh := sims.HTTPShape(0, len(behs))
 	if c.Query {
 		for i := range sh.CRL {
@@ -314,6 +315,20 @@ func run(r *core.Run) int {
 					}
 					if ncs {
 						continue
+					}
+					if !fresh {
+						// the same singles and pairs with a signing time supplied
+						cst := c
+						cst.WithST = true
+						for _, a := range alpha {
+							jobs = append(jobs, job{cst, []string{a}})
+							for _, b := range alpha {
+								if r.Quick() && rng.IntN(3) != 0 {
+									continue
+								}
+								jobs = append(jobs, job{cst, []string{a, b}})
+							}
+						}
 					}
 					keep := 6 // quick: one triple in six, seed-drawn
 					if !r.Quick() {
